@@ -102,11 +102,13 @@ impl AsRef<[u8]> for Namespace<'_> {
     }
 }
 
-#[derive(Clone, PartialEq, Eq, Hash)]
+/// Model: `Unknown` carries a borrowed prefix instead of the real crate's `Vec<u8>`, so that
+/// the `(ResolveResult, Event)` pairs the readers match on have no drop glue at all.
+#[derive(Clone, Copy, PartialEq, Eq, Hash)]
 pub enum ResolveResult<'ns> {
     Unbound,
     Bound(Namespace<'ns>),
-    Unknown(Vec<u8>),
+    Unknown(&'ns [u8]),
 }
 impl fmt::Debug for ResolveResult<'_> {
     fn fmt(&self, f: &mut fmt::Formatter<'_>) -> fmt::Result {
